@@ -50,13 +50,13 @@ ND      == NameSet \cup {"-"}
 
 TwoOps == {"pvar2", "pconst2", "define2", "lvar2", "lconst2"}   \* declarations of TWO names: `var n, k = 1, 2` ...
 GoOps == TwoOps \cup
-         {"pvar", "pconst", "ptype", "func", "method", "define", "lvar", "lconst", "ltype", "use",
+         {"pstruct", "pvar", "pconst", "ptype", "func", "method", "define", "lvar", "lconst", "ltype", "use",
           "muse", "block", "if", "for", "switch", "range", "funclit", "close"}
 XOps  == {"pover", "xmain", "errwrap", "echo", "interp", "forin", "lambdab", "lambda", "compr"}
 
 Openers  == {"func", "method", "xmain", "block", "if", "for", "switch", "range", "forin", "funclit", "lambdab"}
 FuncLike == {"func", "method", "xmain", "funclit", "lambdab", "lambda"}   \* header scope = body scope
-PkgOps   == {"pvar", "pconst", "ptype", "pover", "func", "method", "xmain", "pvar2", "pconst2"}
+PkgOps   == {"pvar", "pconst", "ptype", "pover", "func", "method", "xmain", "pvar2", "pconst2", "pstruct"}
 
 It(op, n, u, p, r, q, k, v) ==
   [op |-> op, n |-> n, u |-> u, p |-> p, r |-> r, q |-> q, k |-> k, v |-> v, par |-> 0]
@@ -73,6 +73,10 @@ Roles(op) ==
     [] op = "pconst"  -> << <<"n","n","pkg">> >>
     [] op = "ptype"   -> << <<"n","n","pkg">> >>
     [] op = "pover"   -> << <<"n","n","pkg">> >>
+    \* `type n struct { p int; T; *U; sync.Mutex; *bytes.Buffer }`: the named field p is a declaration of class
+    \* "fld" (never the target of a plain use); r, q, k, v are FLAGS ("y" / "-") for the four embedded
+    \* field shapes (plain, pointer, package-qualified, pointer to package-qualified), not names
+    [] op = "pstruct" -> << <<"n","n","pkg">>, <<"p","p","fld">> >>
     [] op \in {"pvar2", "pconst2"} -> << <<"n","n","pkg">>, <<"k","k","pkg">> >>
     [] op \in {"define2", "lvar2"} -> << <<"n","n","loc">>, <<"k","k","loc">>, <<"au","n","self">>, <<"auk","k","self">> >>
     [] op = "lconst2" -> << <<"n","n","loc">>, <<"k","k","loc">> >>
@@ -97,7 +101,7 @@ Roles(op) ==
     [] op = "compr"   -> << <<"n","n","loc">>, <<"u","u","inner">>, <<"v","v","hdr">>, <<"au","n","self">> >>
     [] OTHER          -> << >>
 
-DeclClasses == {"pkg", "meth", "hdr", "loc", "post"}
+DeclClasses == {"pkg", "meth", "hdr", "loc", "post", "fld"}
 Fld(it, f) == CASE f = "n" -> it.n [] f = "u" -> it.u [] f = "p" -> it.p [] f = "r" -> it.r
                 [] f = "q" -> it.q [] f = "k" -> it.k [] f = "v" -> it.v
 
@@ -139,6 +143,7 @@ ScopeDepth(its, d) ==
 Visible(its, d, i, ctx) ==
   CASE d.cls = "pkg"  -> TRUE
     [] d.cls = "meth" -> FALSE
+    [] d.cls = "fld"  -> FALSE
     [] d.cls = "hdr"  -> (d.i = i /\ ctx = "inner") \/ d.i \in AncOf(its, i)
     [] d.cls = "loc"  -> d.i < i /\ its[d.i].par \in AncOf(its, i)
     [] d.cls = "post" -> d.i < i /\ d.i \notin AncOf(its, i) /\ its[d.i].par \in AncOf(its, i)
@@ -235,6 +240,8 @@ PkgCands == { it \in
   \cup { It("func", n, "-", p, r, "-", "-", "-") : n \in NameSet, p \in ND, r \in ND }
   \cup { It("method", n, "-", p, r, q, "-", "-") : n \in NameSet, p \in ND, r \in ND, q \in ND }
   \cup { It(op, n, "-", "-", "-", "-", k, "-") : op \in {"pvar2", "pconst2"}, n \in NameSet, k \in NameSet }
+  \cup { It("pstruct", n, "-", p, r, q, k, v) : n \in NameSet, p \in ND, r \in {"-", "y"}, q \in {"-", "y"},
+                                                  k \in {"-", "y"}, v \in {"-", "y"} }
   \cup { It("xmain", "-", "-", "-", "-", "-", "-", "-") } : it.op \in Ops }
 BlockCands == { it \in
        { It(op, n, u, "-", "-", "-", "-", "-") : op \in {"define", "lvar", "errwrap"}, n \in NameSet, u \in ND }
